@@ -81,6 +81,45 @@ func RUseTitle(n, un string) string {
 	return t + "/" + h.name + "/" + string(g.u)
 }
 
+var _ = Stats{0, 0, 0, ""}
+
+type RStats struct {
+	min, max int
+	len      int
+	cap      string
+}
+
+func (this *RStats) Add(v int) {
+	if this.len == 0 || v < this.min {
+		this.min = v
+	}
+	if this.len == 0 || v > this.max {
+		this.max = v
+	}
+	this.len++
+}
+func (this *RStats) Span() int  { return this.max - this.min }
+func (this *RStats) Count() int { return this.len }
+func (this *RStats) print(msg string) string {
+	this.cap = msg
+	return msg + "!"
+}
+func (this *RStats) Show(msg string) string { return this.print(msg) + this.cap }
+
+func RUseStats(a, b, c int) int {
+	s := &RStats{}
+	s.Add(a)
+	s.Add(b)
+	s.Add(c)
+	return s.Span()*100 + s.Count()
+}
+
+func RUseShow(m string) string {
+	s := new(RStats)
+	t := new(RStats)
+	return s.Show(m) + "|" + t.cap
+}
+
 type RCounter struct {
 	n     int
 	label string
@@ -166,6 +205,11 @@ func VxC11() {
 		}
 		un := vxString(vxConcrete(vxIntRange(0, 1)))
 		vxAssert(UseTitle(n, un) == RUseTitle(n, un), "class file (string and named-type fields) differs from its explicit struct form")
+	case 6:
+		c3 := vxIntRange(-20, 20)
+		vxAssert(UseStats(a, b, c3) == RUseStats(a, b, c3), "a class whose fields are named like predeclared identifiers (min, max, len) differs from its explicit struct form")
+		m := vxString(vxConcrete(vxIntRange(0, 2)))
+		vxAssert(UseShow(m) == RUseShow(m), "a class method named like a builtin (print), called bare, differs from its explicit struct form")
 	case 3:
 		// method-level comparison from an arbitrary field state
 		c := &Counter{n: a, label: "x", hist: []int{b}, seen: map[int]bool{q: true}}
